@@ -21,6 +21,9 @@ def Op.posHeight : Op → Prop
   | .newBlock h _ => h ≠ 0
   | _ => True
 
+instance (op : Op) : Decidable op.posHeight := by
+  cases op <;> unfold Op.posHeight <;> infer_instance
+
 theorem HgtInv.of_same {s s' : State} (h : HgtInv s) (e : SameBets s s') : HgtInv s' := by
   obtain ⟨h1, h2, h3⟩ := h
   exact ⟨by rw [e.2.2.2.2]; exact h1, by rw [e.1]; exact h2, by rw [e.1]; exact h3⟩
